@@ -200,6 +200,23 @@ def run_shard(ctx):
         check_case(ctx, case)
         if j < 2:
             acc.sample(dict(input=core.trunc(text, 500), cfg=cfg))
+    # degenerate roots under a grid of configurations (the root start / end tags are written by separate code paths)
+    roots = ["<svg/>", "<svg />", '<svg width="10"/>', '<svg viewBox="0 0 1 1" class="c"/>', "<svg></svg>", "<svg>\n</svg>", "<svg/>\n<!-- after -->",
+             "<svg><!-- only a comment --></svg>", '<svg/>\n', "<?xml version=\"1.0\"?><svg/>", "<svg><style>a{}</style></svg>", "<svg><defs/></svg>"]
+    k = 0
+    for t in roots:
+        for auto in (True, False):
+            for debug in (False, True):
+                for extra in (None, dict(meta=True), dict(local=True), dict(bg="white"), dict(theme="dark"), dict(style="a:b")):
+                    k += 1
+                    if not ctx.mine(k):
+                        continue
+                    cfg = dict(extra or {})
+                    if not auto:
+                        cfg["auto"] = False
+                    if debug:
+                        cfg["debug"] = True
+                    check_case(ctx, dict(input=t.encode("utf-8"), cfg=cfg or None, feats=["degenerate-root", "auto." + str(auto)], hostile=True))
     # corpus and small edge documents under several configurations
     from .c05 import EDGE_DOCS
     docs = corpus.texts() + EDGE_DOCS + ["<svg/><svg/>", "<svg/><rect wh=\"1\"/>", "<rect wh=\"1\"/><svg/>", ""]
